@@ -71,13 +71,13 @@ func (e *Engine) selectFuncs(fnRe *regexp.Regexp, tag string, sweep bool) []*ssa
 		if fnRe != nil && !fnRe.MatchString(key) {
 			continue
 		}
-		sp := e.db.Funcs[key]
+		sp, _ := e.specFor(f)
 		if sp == nil {
 			if !sweep {
 				continue
 			}
 		} else {
-			if sp.Kind == "extern" || sp.Trusted {
+			if sp.Kind == "extern" || sp.Trusted || sp.Inline {
 				continue
 			}
 			if tag != "" && !hasTag(sp.Tags, tag) && !clauseHasTag(sp, tag) && !(sweep && tag == "C01") {
